@@ -6,6 +6,7 @@ require (
 	github.com/negasus/haproxy-spoe-go v1.0.5
 	github.com/rs/zerolog v1.31.0
 	go.opentelemetry.io/otel/metric v1.21.0
+	go.opentelemetry.io/otel/sdk/metric v1.21.0
 	lunar/aggregation-plugin v0.0.0
 	lunar/engine v0.0.0
 	lunar/shared-model v0.0.0
@@ -60,7 +61,6 @@ require (
 	go.opentelemetry.io/otel/exporters/otlp/otlptrace/otlptracegrpc v1.21.0 // indirect
 	go.opentelemetry.io/otel/exporters/prometheus v0.44.0 // indirect
 	go.opentelemetry.io/otel/sdk v1.21.0 // indirect
-	go.opentelemetry.io/otel/sdk/metric v1.21.0 // indirect
 	go.opentelemetry.io/otel/trace v1.21.0 // indirect
 	go.opentelemetry.io/proto/otlp v1.0.0 // indirect
 	golang.org/x/crypto v0.24.0 // indirect
